@@ -604,8 +604,8 @@ int parse_instruction_dspic(AsmContext *asm_context, char *instr)
         else if (strcmp(s,"uu") == 0) { flag = FLAG_UU; }
         else
         {
-          return -1;
           print_error_unexp(asm_context, token);
+          return -1;
         }
 
         //token_type=tokens_get(asm_context, token, TOKENLEN);
